@@ -495,6 +495,16 @@ pub fn run_with(rng: &mut Rng, n: usize, rep: &mut Report, lines: &mut Option<Ve
                             if BigInt::from(paid) > &exact_value + 1 {
                                 rep.fail(format!("C03 kamino_withdraw paid {} tokens for {} collateral whose exact value is {}", paid, gone, exact_value));
                             }
+                            // C20: … and at most the exact value of the collateral DEBITED FROM THE POSITION
+                            {
+                                let debited = BigInt::from(dsh >> 48);
+                                let v = ((&debited * &liq_sf) / &col) >> 60u32;
+                                if BigInt::from(paid) > &v + 1 {
+                                    for tag in ["C20", "C03"] {
+                                        rep.fail(format!("{} kamino_withdraw (all = {}) paid {} tokens while the position was debited {} collateral whose exact value is {}: the conversion overstates what the position is worth", tag, all, paid, debited, v));
+                                    }
+                                }
+                            }
                             // C04: with debt outstanding the account must still pass the initial check (the real engine's own verdict)
                             if debt_before > 0 {
                                 let mut c2 = k.w.clone();
